@@ -5,10 +5,28 @@ import (
 	"go/constant"
 	"go/token"
 	"go/types"
-	"path/filepath"
+	"sort"
+	"strconv"
+	"strings"
 )
 
 // C09: constants and call shapes the tunnel model depends on.
+//
+// The facts are EVENTS and ROLES, not source text (see design/C09.md, "Behaviour-preserving refactorings"):
+//   - the AST is normalised first (package constants inlined, literal concatenations folded, switch -> if chain);
+//   - a handler is walked in source order with calls into same-package functions and into local closures
+//     FOLLOWED, parameters bound to the roles of the arguments, so extracting/inlining a helper or a closure
+//     changes nothing;
+//   - variables are identified by role: `client` (the handler's connection parameter / the result of Hijack),
+//     `upstream` (assigned from the dial call), `bufreader` (assigned from bufio.NewReader*), `hello` (the buffer
+//     handed to io.ReadFull), `header` (the result of Peek), `errc` (the error channel), `hsbuf` (the buffer of
+//     the websocket handshake read); in copyBuffer: dst, src, counter (parameters by position), buf, nr, er, nw,
+//     ew, result;
+//   - what is pinned: the ordered list of events (peek, size, readfull, parse, lookup, dial, proxyheader, write,
+//     copy dst<-src, recv, socket-option calls), channel capacity, the number of receives, constants.
+// Names that are still looked up by spelling: exported API (ServeTCP, WriteProxyHeader, Serve, ServeHTTP, Lookup),
+// `copyBuffer` (referenced by the hook /repo/proxy/tcp/verif_c09.go: renaming it breaks the harness build anyway)
+// and `clientHelloBufferSize` / `readServerName` (referenced by C10's hook verif_c10.go, same remark).
 
 // c09Const evaluates an integer constant expression made of literals (e.g. 32*1024).
 func c09Const(x *X, e ast.Expr) (uint64, bool) {
@@ -19,83 +37,639 @@ func c09Const(x *X, e ast.Expr) (uint64, bool) {
 	return constant.Uint64Val(constant.ToInt(tv.Value))
 }
 
-// c09Flatten returns the operands of a left-nested a + b + c chain, rendered.
-func c09Flatten(x *X, e ast.Expr) []string {
-	if b, ok := e.(*ast.BinaryExpr); ok && b.Op == token.ADD {
-		return append(c09Flatten(x, b.X), c09Flatten(x, b.Y)...)
-	}
-	if s, ok := x.strLit(e); ok {
-		return []string{"lit:" + s}
-	}
-	return []string{x.src(e)}
-}
-
-// c09Tunnel extracts, for one ServeTCP/handler body: the capacity of errc, the number of receives from
-// it, the arguments of the two `go cp(dst, src, ...)` statements, and whether WriteProxyHeader is called.
-func c09Tunnel(x *X, name string, body ast.Node) {
-	var caps []uint64
-	recvs := 0
-	var cps []string
-	ast.Inspect(body, func(n ast.Node) bool {
-		switch v := n.(type) {
-		case *ast.AssignStmt:
-			if len(v.Lhs) == 1 && len(v.Rhs) == 1 && x.src(v.Lhs[0]) == "errc" {
-				if c, ok := v.Rhs[0].(*ast.CallExpr); ok && x.src(c.Fun) == "make" && len(c.Args) == 2 {
-					if k, ok := c09Const(x, c.Args[1]); ok {
-						caps = append(caps, k)
-					}
-				}
-			}
-		case *ast.UnaryExpr:
-			if v.Op == token.ARROW && x.src(v.X) == "errc" {
-				recvs++
-			}
-		case *ast.GoStmt:
-			if x.src(v.Call.Fun) == "cp" && len(v.Call.Args) >= 2 {
-				cps = append(cps, x.src(v.Call.Args[0])+"<-"+x.src(v.Call.Args[1]))
-			}
-		}
-		return true
-	})
-	if len(caps) != 1 {
-		x.fail("%s: expected exactly one `errc := make(chan error, N)`", name)
-		return
-	}
-	x.defNat(name+"ErrcCap", caps[0])
-	x.defNat(name+"ErrcReceives", uint64(recvs))
-	x.defStrList(name+"Copies", cps)
-	x.defBool(name+"WritesProxyHeader", len(x.calls(body, "WriteProxyHeader")) > 0)
-}
-
-// c09SockOpts lists, in source order, every socket-option / deadline / half-close call in the given files
-// of a package: "<file> <func>: <call>(<args>)" plus, when the call sits under an `if`, " if <cond>" of the
-// innermost one. A tunnel handler that starts to set deadlines, linger, buffers or half-closes changes the
-// transparency model and has to show up here.
 var c09SockOptNames = map[string]bool{"SetLinger": true, "SetDeadline": true, "SetReadDeadline": true,
 	"SetWriteDeadline": true, "SetNoDelay": true, "SetKeepAlive": true, "SetKeepAlivePeriod": true,
 	"SetKeepAliveConfig": true, "CloseWrite": true, "CloseRead": true, "SetReadBuffer": true, "SetWriteBuffer": true}
 
-func c09SockOpts(x *X, dir string, files map[string]bool) []string {
-	var out []string
-	for _, f := range x.files(dir) {
-		name := filepath.Base(x.fset.Position(f.Pos()).Filename)
-		if !files[name] {
-			continue
+type c09env map[string]string
+
+func (e c09env) with(k, v string) c09env {
+	n := c09env{}
+	for a, b := range e {
+		n[a] = b
+	}
+	n[k] = v
+	return n
+}
+
+// c09walker walks a handler in source order, following same-package calls and local closures.
+type c09walker struct {
+	x        *X
+	dir      string
+	events   []string
+	caps     []uint64
+	recvs    int
+	closures map[string]*ast.FuncLit
+	bufsize  map[string]uint64
+	stack    map[string]bool
+	inGo     int
+}
+
+func (w *c09walker) render(e ast.Expr, env c09env) string {
+	if se, ok := e.(*ast.SliceExpr); ok && se.Low != nil {
+		if bl, ok := se.Low.(*ast.BasicLit); ok && bl.Value == "0" { // buf[0:n] == buf[:n]
+			c := *se
+			c.Low = nil
+			return w.x.RenameLocals(&c, env)
 		}
+	}
+	return w.x.RenameLocals(e, env)
+}
+
+// argClass classifies a deadline/option argument: now+<duration>, zero, or the rendered expression.
+func (w *c09walker) argClass(c *ast.CallExpr, env c09env) string {
+	var out []string
+	for _, a := range c.Args {
+		s := w.x.src(a)
+		switch {
+		case strings.HasPrefix(s, "time.Now().Add("):
+			out = append(out, "now+d")
+		case s == "time.Time{}":
+			out = append(out, "zero")
+		default:
+			out = append(out, w.render(a, env))
+		}
+	}
+	return strings.Join(out, ",")
+}
+
+func c09Callee(c *ast.CallExpr) (recv ast.Expr, name string) {
+	switch f := c.Fun.(type) {
+	case *ast.Ident:
+		return nil, f.Name
+	case *ast.SelectorExpr:
+		return f.X, f.Sel.Name
+	}
+	return nil, ""
+}
+
+func (w *c09walker) role(e ast.Expr, env c09env) string {
+	if id, ok := e.(*ast.Ident); ok {
+		if r, ok := env[id.Name]; ok {
+			return r
+		}
+	}
+	return "other"
+}
+
+// bindParams: the callee's environment = base + its parameters bound to the roles the arguments have in env.
+func (w *c09walker) bindParams(ft *ast.FuncType, args []ast.Expr, env, base c09env) c09env {
+	n := c09env{}
+	for k, v := range base {
+		n[k] = v
+	}
+	i := 0
+	if ft.Params != nil {
+		for _, p := range ft.Params.List {
+			for _, nm := range p.Names {
+				if i < len(args) {
+					delete(n, nm.Name)
+					if r := w.role(args[i], env); r != "other" {
+						n[nm.Name] = r
+					}
+				}
+				i++
+			}
+		}
+	}
+	return n
+}
+
+func (w *c09walker) walk(node ast.Node, env c09env, depth int) {
+	if node == nil || depth > 5 {
+		return
+	}
+	ast.Inspect(node, func(n ast.Node) bool {
+		switch v := n.(type) {
+		case *ast.AssignStmt:
+			if len(v.Rhs) == 1 {
+				lhs0 := ""
+				if id, ok := v.Lhs[0].(*ast.Ident); ok {
+					lhs0 = id.Name
+				}
+				switch r := v.Rhs[0].(type) {
+				case *ast.FuncLit:
+					if lhs0 != "" { // a local closure: walked where it is called / started
+						w.closures[lhs0] = r
+						return false
+					}
+				case *ast.CallExpr:
+					recv, name := c09Callee(r)
+					fsrc := w.x.src(r.Fun)
+					switch {
+					case fsrc == "net.DialTimeout" || fsrc == "net.Dial" || (recv == nil && env[name] == "dialfn"):
+						w.events = append(w.events, "dial")
+						env[lhs0] = "upstream"
+						return false
+					case fsrc == "bufio.NewReader" || fsrc == "bufio.NewReaderSize":
+						ev := "bufreader(" + w.role(r.Args[0], env)
+						if len(r.Args) > 1 {
+							ev += "," + w.x.src(r.Args[1])
+						}
+						w.events = append(w.events, ev+")")
+						env[lhs0] = "bufreader"
+						return false
+					case fsrc == "make" && len(r.Args) == 2 && strings.HasPrefix(w.x.src(r.Args[0]), "chan "):
+						if k, ok := c09Const(w.x, r.Args[1]); ok {
+							w.caps = append(w.caps, k)
+						}
+						env[lhs0] = "errc"
+						return false
+					case fsrc == "make" && len(r.Args) >= 2 && w.x.src(r.Args[0]) == "[]byte":
+						if k, ok := c09Const(w.x, r.Args[1]); ok {
+							w.bufsize[lhs0] = k
+						}
+						return false
+					case name == "Hijack":
+						w.events = append(w.events, "hijack")
+						env[lhs0] = "client"
+						return false
+					case name == "Peek" && recv != nil && w.role(recv, env) == "bufreader":
+						k, _ := c09Const(w.x, r.Args[0])
+						w.events = append(w.events, "peek("+strconv.FormatUint(k, 10)+")")
+						env[lhs0] = "header"
+						return false
+					}
+				}
+			}
+		case *ast.GoStmt:
+			w.call(v.Call, env, depth, true)
+			return false
+		case *ast.UnaryExpr:
+			if v.Op == token.ARROW && w.role(v.X, env) == "errc" {
+				w.recvs++
+				w.events = append(w.events, "recv")
+			}
+		case *ast.CallExpr:
+			return w.call(v, env, depth, false)
+		}
+		return true
+	})
+}
+
+// call records the event of one call and follows it where it has a body in the package. Returns whether the
+// surrounding Inspect should descend into the call's children.
+func (w *c09walker) call(c *ast.CallExpr, env c09env, depth int, isGo bool) bool {
+	recv, name := c09Callee(c)
+	fsrc := w.x.src(c.Fun)
+	pre := ""
+	if isGo || w.inGo > 0 {
+		pre = "go "
+	}
+	// arguments first (they are evaluated before the call)
+	for _, a := range c.Args {
+		if fl, ok := a.(*ast.FuncLit); ok {
+			w.walk(fl.Body, env, depth+1)
+		} else {
+			w.walk(a, env, depth)
+		}
+	}
+	switch {
+	case recv != nil && c09SockOptNames[name]:
+		w.events = append(w.events, w.role(recv, env)+"."+name+"("+w.argClass(c, env)+")")
+	case fsrc == "io.ReadFull" && len(c.Args) == 2:
+		if id, ok := c.Args[1].(*ast.Ident); ok {
+			env[id.Name] = "hello"
+		}
+		w.events = append(w.events, "readfull("+w.role(c.Args[0], env)+")")
+	case recv == nil && name == "clientHelloBufferSize" && len(c.Args) == 1:
+		w.events = append(w.events, "size("+w.render(c.Args[0], env)+")")
+	case recv == nil && name == "readServerName" && len(c.Args) == 1:
+		w.events = append(w.events, "parse("+w.render(c.Args[0], env)+")")
+	case recv != nil && name == "Lookup":
+		w.events = append(w.events, "lookup")
+	case recv == nil && name == "copyBuffer" && len(c.Args) >= 2:
+		w.events = append(w.events, pre+"copy "+w.role(c.Args[0], env)+"<-"+w.role(c.Args[1], env))
+	case fsrc == "io.Copy" && len(c.Args) == 2:
+		w.events = append(w.events, pre+"copy "+w.role(c.Args[0], env)+"<-"+w.role(c.Args[1], env))
+	case recv != nil && name == "Write" && len(c.Args) == 1:
+		rr := w.role(recv, env)
+		if rr == "upstream" || rr == "client" {
+			w.events = append(w.events, "write("+rr+","+w.role(c.Args[0], env)+")")
+		} else if ar := w.role(c.Args[0], env); ar == "upstream" || ar == "client" {
+			w.events = append(w.events, "writeto("+ar+")")
+		}
+	case recv != nil && name == "Read" && len(c.Args) == 1:
+		if rr := w.role(recv, env); rr == "upstream" || rr == "client" {
+			sz := ""
+			if id, ok := c.Args[0].(*ast.Ident); ok {
+				if k, ok := w.bufsize[id.Name]; ok {
+					sz = "," + strconv.FormatUint(k, 10)
+				}
+				env[id.Name] = "hsbuf"
+			}
+			w.events = append(w.events, "read("+rr+sz+")")
+		}
+	case fsrc == "bytes.HasPrefix" && len(c.Args) == 2:
+		lit := w.x.src(c.Args[1])
+		w.events = append(w.events, "hasprefix("+w.role(c.Args[0], env)+","+lit+")")
+	case recv == nil && name == "WriteProxyHeader" && len(c.Args) == 2:
+		w.events = append(w.events, "proxyheader("+w.role(c.Args[0], env)+","+w.role(c.Args[1], env)+")")
+	}
+	// follow: a local closure, a function literal, or a function/method of the package that has a body
+	switch f := c.Fun.(type) {
+	case *ast.FuncLit:
+		w.follow(f.Body, w.bindParams(f.Type, c.Args, env, env), depth+1, isGo)
+		return false
+	case *ast.Ident:
+		if fl, ok := w.closures[f.Name]; ok && !w.stack["closure:"+f.Name] {
+			w.stack["closure:"+f.Name] = true
+			w.follow(fl.Body, w.bindParams(fl.Type, c.Args, env, env), depth+1, isGo)
+			delete(w.stack, "closure:"+f.Name)
+			return false
+		}
+	}
+	// a plain function of the package, or a method called on the handler's own receiver
+	if name != "" && name != "copyBuffer" && !w.stack[name] && (recv == nil || w.role(recv, env) == "self") {
+		if _, isIdent := c.Fun.(*ast.Ident); isIdent || recv != nil {
+			if fd := w.x.anyFuncDecl(w.dir, name); fd != nil && (recv == nil) == (fd.Recv == nil) {
+				w.stack[name] = true
+				nenv := w.bindParams(fd.Type, c.Args, env, c09env{})
+				if fd.Recv != nil && len(fd.Recv.List) == 1 && len(fd.Recv.List[0].Names) == 1 {
+					nenv[fd.Recv.List[0].Names[0].Name] = "self"
+				}
+				w.follow(fd.Body, nenv, depth+1, isGo)
+				delete(w.stack, name)
+			}
+		}
+	}
+	if recv != nil { // the receiver expression may itself contain calls (in.RemoteAddr().String())
+		w.walk(recv, env, depth)
+	}
+	return false
+}
+
+// follow walks a callee's body; what runs under a `go` statement is marked.
+func (w *c09walker) follow(body ast.Node, env c09env, depth int, isGo bool) {
+	if isGo {
+		w.inGo++
+	}
+	w.walk(body, env, depth)
+	if isGo {
+		w.inGo--
+	}
+}
+
+func c09Handler(x *X, name, dir string, body *ast.BlockStmt, env c09env) {
+	w := &c09walker{x: x, dir: dir, closures: map[string]*ast.FuncLit{}, bufsize: map[string]uint64{}, stack: map[string]bool{}}
+	w.walk(body, env, 0)
+	if len(w.caps) != 1 {
+		x.fail("%s: expected exactly one error channel `make(chan error, N)` on the handler's path, found %d", name, len(w.caps))
+		return
+	}
+	x.defStrList(name+"Events", w.events)
+	// derived here (string computations do not reduce in Lean's kernel): the socket-option / deadline /
+	// half-close events among them, and whether a PROXY line is written
+	so := []string{}
+	pxy := false
+	for _, e := range w.events {
+		if i := strings.Index(e, "."); i > 0 && i < strings.Index(e+"(", "(") {
+			if c09SockOptNames[e[i+1:strings.Index(e, "(")]] {
+				so = append(so, e)
+			}
+		}
+		if strings.HasPrefix(e, "proxyheader(") {
+			pxy = true
+		}
+	}
+	x.defStrList(name+"SockOpts", so)
+	x.defBool(name+"WritesProxyHeader", pxy)
+	x.defNat(name+"ErrcCap", w.caps[0])
+	x.defNat(name+"ErrcReceives", uint64(w.recvs))
+}
+
+func c09FirstParam(fd *ast.FuncDecl) string {
+	if fd.Type.Params != nil && len(fd.Type.Params.List) > 0 && len(fd.Type.Params.List[0].Names) > 0 {
+		return fd.Type.Params.List[0].Names[0].Name
+	}
+	return ""
+}
+
+// atoms splits a condition on && (parentheses removed).
+func c09Atoms(e ast.Expr) []ast.Expr {
+	switch v := e.(type) {
+	case *ast.ParenExpr:
+		return c09Atoms(v.X)
+	case *ast.BinaryExpr:
+		if v.Op == token.LAND {
+			return append(c09Atoms(v.X), c09Atoms(v.Y)...)
+		}
+	}
+	return []ast.Expr{e}
+}
+
+func c09CopyBuffer(x *X) {
+	fd := x.funcDecl("proxy/tcp", "", "copyBuffer")
+	if fd == nil {
+		return
+	}
+	env := c09env{}
+	_, params, _ := x.LocalNames(fd)
+	for i, p := range params {
+		if i < 3 {
+			env[p] = []string{"dst", "src", "counter"}[i]
+		}
+	}
+	if fd.Type.Results != nil {
+		for _, r := range fd.Type.Results.List {
+			for _, n := range r.Names {
+				env[n.Name] = "result"
+			}
+		}
+	}
+	w := &c09walker{x: x}
+	var calls []string
+	loops := 0
+	found := false
+	// pass 1: roles from the assignments
+	ast.Inspect(fd.Body, func(n ast.Node) bool {
+		if _, ok := n.(*ast.ForStmt); ok {
+			loops++
+		}
+		a, ok := n.(*ast.AssignStmt)
+		if !ok || len(a.Rhs) != 1 {
+			return true
+		}
+		c, ok := a.Rhs[0].(*ast.CallExpr)
+		if !ok {
+			return true
+		}
+		recv, name := c09Callee(c)
+		ids := func(i int) string {
+			if i < len(a.Lhs) {
+				if id, ok := a.Lhs[i].(*ast.Ident); ok {
+					return id.Name
+				}
+			}
+			return ""
+		}
+		switch {
+		case x.src(c.Fun) == "make" && len(c.Args) == 2 && x.src(c.Args[0]) == "[]byte":
+			if k, ok := c09Const(x, c.Args[1]); ok {
+				x.defNat("copyBufBytes", k)
+				found = true
+			}
+			env[ids(0)] = "buf"
+		case recv != nil && name == "Read" && w.role(recv, env) == "src":
+			env[ids(0)], env[ids(1)] = "nr", "er"
+		case recv != nil && name == "Write" && w.role(recv, env) == "dst":
+			env[ids(0)], env[ids(1)] = "nw", "ew"
+		}
+		return true
+	})
+	delete(env, "")
+	if !found {
+		x.fail("copyBuffer: buffer allocation not found")
+	}
+	// pass 2: calls in order, tests, results
+	atomSet := map[string]bool{}
+	var subjects []string
+	results := map[string]bool{}
+	ast.Inspect(fd.Body, func(n ast.Node) bool {
+		switch v := n.(type) {
+		case *ast.CallExpr:
+			recv, name := c09Callee(v)
+			if recv != nil {
+				if r := w.role(recv, env); r == "src" || r == "dst" || r == "counter" {
+					var args []string
+					for _, a := range v.Args {
+						args = append(args, w.render(a, env))
+					}
+					calls = append(calls, r+"."+name+"("+strings.Join(args, ",")+")")
+				}
+			}
+		case *ast.IfStmt:
+			for _, a := range c09Atoms(v.Cond) {
+				s := w.render(a, env)
+				if be, ok := a.(*ast.BinaryExpr); ok && (be.Op == token.EQL || be.Op == token.NEQ) {
+					// polarity is a matter of how the branches are laid out
+					l, r := w.render(be.X, env), w.render(be.Y, env)
+					if r < l {
+						l, r = r, l
+					}
+					s = "cmp(" + l + "," + r + ")"
+				}
+				atomSet[s] = true
+				subj := s
+				ast.Inspect(a, func(m ast.Node) bool {
+					if id, ok := m.(*ast.Ident); ok && subj == s {
+						if r, ok := env[id.Name]; ok {
+							subj = r
+						}
+					}
+					return true
+				})
+				if len(subjects) == 0 || subjects[len(subjects)-1] != subj {
+					subjects = append(subjects, subj)
+				}
+			}
+		case *ast.ReturnStmt:
+			for _, r := range v.Results {
+				if s := w.render(r, env); s != "result" && s != "nil" {
+					results[s] = true
+				}
+			}
+		case *ast.AssignStmt:
+			if len(v.Lhs) == 1 && len(v.Rhs) == 1 && w.role(v.Lhs[0], env) == "result" {
+				if s := w.render(v.Rhs[0], env); s != "nil" {
+					results[s] = true
+				}
+			}
+		}
+		return true
+	})
+	keys := func(m map[string]bool) []string {
+		var ks []string
+		for k := range m {
+			ks = append(ks, k)
+		}
+		sort.Strings(ks)
+		return ks
+	}
+	x.defNat("copyLoops", uint64(loops))
+	x.defStrList("copyCalls", calls)
+	x.defStrList("copyTests", keys(atomSet))
+	x.defStrList("copyTestOrder", subjects)
+	x.defStrList("copyResults", keys(results))
+	var so []string
+	ast.Inspect(fd.Body, func(n ast.Node) bool {
+		if c, ok := n.(*ast.CallExpr); ok {
+			if _, name := c09Callee(c); c09SockOptNames[name] {
+				so = append(so, name)
+			}
+		}
+		return true
+	})
+	x.defStrList("copySockOpts", so)
+}
+
+func c09ProxyHeader(x *X) {
+	fd := x.funcDecl("proxy/tcp", "", "WriteProxyHeader")
+	if fd == nil {
+		return
+	}
+	env := c09env{}
+	_, params, _ := x.LocalNames(fd)
+	for i, p := range params {
+		if i < 2 {
+			env[p] = []string{"upstream", "client"}[i]
+		}
+	}
+	w := &c09walker{x: x}
+	var splits []string
+	ast.Inspect(fd.Body, func(n ast.Node) bool {
+		a, ok := n.(*ast.AssignStmt)
+		if !ok || len(a.Rhs) != 1 {
+			return true
+		}
+		c, ok := a.Rhs[0].(*ast.CallExpr)
+		if !ok || x.src(c.Fun) != "net.SplitHostPort" || len(c.Args) != 1 || len(a.Lhs) < 2 {
+			return true
+		}
+		arg := w.render(c.Args[0], env)
+		splits = append(splits, arg)
+		pre := "?"
+		switch {
+		case strings.Contains(arg, "RemoteAddr"):
+			pre = "client"
+		case strings.Contains(arg, "LocalAddr"):
+			pre = "server"
+		}
+		if id, ok := a.Lhs[0].(*ast.Ident); ok {
+			env[id.Name] = pre + "Addr"
+		}
+		if id, ok := a.Lhs[1].(*ast.Ident); ok {
+			env[id.Name] = pre + "Port"
+		}
+		return true
+	})
+	// the family variable: the one a "TCP4"/"TCP6" literal is assigned to
+	var fam []string
+	var walk func(n ast.Node, cond string)
+	record := func(lhs ast.Expr, rhs ast.Expr, cond string) {
+		if s, ok := x.strLit(rhs); ok && (s == "TCP4" || s == "TCP6") {
+			if id, ok := lhs.(*ast.Ident); ok {
+				env[id.Name] = "family"
+			}
+			if cond == "" {
+				fam = append(fam, s+" otherwise")
+			} else {
+				fam = append(fam, s+" if "+cond)
+			}
+		}
+	}
+	walk = func(n ast.Node, cond string) {
+		ast.Inspect(n, func(m ast.Node) bool {
+			switch v := m.(type) {
+			case *ast.IfStmt:
+				c := w.render(v.Cond, env)
+				walk(v.Body, c)
+				if v.Else != nil {
+					walk(v.Else, "")
+				}
+				return false
+			case *ast.AssignStmt:
+				if len(v.Lhs) == 1 && len(v.Rhs) == 1 {
+					record(v.Lhs[0], v.Rhs[0], cond)
+				}
+			case *ast.ValueSpec:
+				if len(v.Names) == 1 && len(v.Values) == 1 {
+					record(v.Names[0], v.Values[0], cond)
+				}
+			}
+			return true
+		})
+	}
+	walk(fd.Body, "")
+	sort.Strings(fam)
+	x.defStrList("pxyFamily", fam)
+	x.defStrList("pxySplitArgs", splits)
+	// the concatenation that starts with "PROXY "
+	var parts []string
+	var flatten func(e ast.Expr) []string
+	flatten = func(e ast.Expr) []string {
+		if b, ok := e.(*ast.BinaryExpr); ok && b.Op == token.ADD {
+			return append(flatten(b.X), flatten(b.Y)...)
+		}
+		if p, ok := e.(*ast.ParenExpr); ok {
+			return flatten(p.X)
+		}
+		if s, ok := x.strLit(e); ok {
+			return []string{"lit:" + s}
+		}
+		return []string{w.render(e, env)}
+	}
+	ast.Inspect(fd.Body, func(n ast.Node) bool {
+		if b, ok := n.(*ast.BinaryExpr); ok && b.Op == token.ADD && parts == nil {
+			if fl := flatten(b); len(fl) > 0 && strings.HasPrefix(fl[0], "lit:PROXY ") {
+				parts = fl
+				return false
+			}
+		}
+		return true
+	})
+	if parts == nil {
+		x.fail("WriteProxyHeader: the concatenation starting with \"PROXY \" was not found")
+	}
+	// adjacent literals are one literal (how the line is cut into pieces is spelling)
+	var merged []string
+	for _, p := range parts {
+		if len(merged) > 0 && strings.HasPrefix(p, "lit:") && strings.HasPrefix(merged[len(merged)-1], "lit:") {
+			merged[len(merged)-1] += p[4:]
+		} else {
+			merged = append(merged, p)
+		}
+	}
+	x.defStrList("pxyHeaderParts", merged)
+}
+
+// c09ConnWrapper: the type Server.Serve wraps accepted connections in, and the socket-option calls of its methods.
+func c09ConnWrapper(x *X) {
+	fd := x.funcDecl("proxy/tcp", "Server", "Serve")
+	if fd == nil {
+		return
+	}
+	typ := ""
+	ast.Inspect(fd.Body, func(n ast.Node) bool {
+		if cl, ok := n.(*ast.CompositeLit); ok && typ == "" {
+			if id, ok := cl.Type.(*ast.Ident); ok && !ast.IsExported(id.Name) {
+				typ = id.Name
+			}
+		}
+		return true
+	})
+	if typ == "" {
+		x.fail("Server.Serve: the connection wrapper type was not found")
+		return
+	}
+	var out []string
+	for _, f := range x.files("proxy/tcp") {
 		for _, d := range f.Decls {
-			fd, ok := d.(*ast.FuncDecl)
-			if !ok || fd.Body == nil {
+			m, ok := d.(*ast.FuncDecl)
+			if !ok || m.Recv == nil || m.Body == nil || len(m.Recv.List) != 1 {
 				continue
 			}
-			fn := fd.Name.Name
-			if fd.Recv != nil && len(fd.Recv.List) == 1 {
-				fn = x.src(fd.Recv.List[0].Type) + "." + fn
+			rt := m.Recv.List[0].Type
+			if st, ok := rt.(*ast.StarExpr); ok {
+				rt = st.X
 			}
+			if id, ok := rt.(*ast.Ident); !ok || id.Name != typ {
+				continue
+			}
+			env := c09env{}
+			recv, params, _ := x.LocalNames(m)
+			if recv != "" {
+				env[recv] = "recv"
+			}
+			for i, p := range params {
+				env[p] = "p" + strconv.Itoa(i)
+			}
+			w := &c09walker{x: x}
 			var ifs []*ast.IfStmt
 			var walk func(n ast.Node)
 			walk = func(n ast.Node) {
-				ast.Inspect(n, func(m ast.Node) bool {
-					switch v := m.(type) {
+				ast.Inspect(n, func(k ast.Node) bool {
+					switch v := k.(type) {
 					case *ast.IfStmt:
 						if v.Init != nil {
 							walk(v.Init)
@@ -109,10 +683,22 @@ func c09SockOpts(x *X, dir string, files map[string]bool) []string {
 						}
 						return false
 					case *ast.CallExpr:
-						if sel, ok := v.Fun.(*ast.SelectorExpr); ok && c09SockOptNames[sel.Sel.Name] {
-							e := name + " " + fn + ": " + x.src(v)
+						if _, name := c09Callee(v); c09SockOptNames[name] {
+							var args []string
+							for _, a := range v.Args {
+								s := x.src(a)
+								if strings.HasPrefix(s, "time.Now().Add(") {
+									if ic, ok := a.(*ast.CallExpr); ok && len(ic.Args) == 1 {
+										s = "now+" + w.render(ic.Args[0], env)
+									}
+								} else {
+									s = w.render(a, env)
+								}
+								args = append(args, s)
+							}
+							e := m.Name.Name + ": " + name + "(" + strings.Join(args, ",") + ")"
 							if len(ifs) > 0 {
-								e += " if " + x.src(ifs[len(ifs)-1].Cond)
+								e += " if " + w.render(ifs[len(ifs)-1].Cond, env)
 							}
 							out = append(out, e)
 						}
@@ -120,179 +706,62 @@ func c09SockOpts(x *X, dir string, files map[string]bool) []string {
 					return true
 				})
 			}
-			walk(fd.Body)
+			walk(m.Body)
 		}
 	}
-	return out
+	sort.Strings(out)
+	x.defStrList("serverSockOpts", out)
 }
 
 func init() {
 	register("C09", func(x *X) error {
-		// socket options, deadlines and half-closes in the tunnel code paths
-		x.defStrList("tcpSockOpts", c09SockOpts(x, "proxy/tcp", map[string]bool{"tcp_proxy.go": true, "sni_proxy.go": true,
-			"tcp_dynamic_proxy.go": true, "proxy_proto.go": true, "copy_buffer.go": true}))
-		x.defStrList("wsSockOpts", c09SockOpts(x, "proxy", map[string]bool{"ws_handler.go": true}))
-		x.defStrList("serverSockOpts", c09SockOpts(x, "proxy/tcp", map[string]bool{"server.go": true}))
+		x.UseNormalizedAST()
 
-		// copyBuffer: buffer size, and the loop's shape (Read, Write, the three exits)
-		if fd := x.funcDecl("proxy/tcp", "", "copyBuffer"); fd != nil {
-			found := false
-			for _, c := range x.calls(fd, "make") {
-				if len(c.Args) == 2 && x.src(c.Args[0]) == "[]byte" {
-					if k, ok := c09Const(x, c.Args[1]); ok {
-						x.defNat("copyBufBytes", k)
-						found = true
-					}
+		c09CopyBuffer(x)
+
+		for _, h := range []struct{ name, typ string }{{"tcp", "Proxy"}, {"sni", "SNIProxy"}, {"dyn", "DynamicProxy"}} {
+			if fd := x.funcDecl("proxy/tcp", h.typ, "ServeTCP"); fd != nil {
+				env := c09env{c09FirstParam(fd): "client"}
+				if r, _, _ := x.LocalNames(fd); r != "" {
+					env[r] = "self"
 				}
+				c09Handler(x, h.name, "proxy/tcp", fd.Body, env)
 			}
-			if !found {
-				x.fail("copyBuffer: buffer allocation not found")
-			}
-			x.defNat("copyReads", uint64(len(x.calls(fd, "src.Read"))))
-			x.defNat("copyWrites", uint64(len(x.calls(fd, "dst.Write"))))
-			var conds []string
-			ast.Inspect(fd, func(n ast.Node) bool {
-				if s, ok := n.(*ast.IfStmt); ok {
-					conds = append(conds, x.src(s.Cond))
-				}
-				return true
-			})
-			x.defStrList("copyConds", conds)
 		}
 
-		// SNIProxy.ServeTCP: Peek(9), data[5:], bufio.NewReader(in), order of the calls, copy source
-		if fd := x.funcDecl("proxy/tcp", "SNIProxy", "ServeTCP"); fd != nil {
-			connParam := ""
-			if fd.Type.Params != nil && len(fd.Type.Params.List) == 1 && len(fd.Type.Params.List[0].Names) == 1 {
-				connParam = fd.Type.Params.List[0].Names[0].Name
-			}
-			x.defStr("sniConnParam", connParam)
-			bufVar, bufArgs := "", ""
-			ast.Inspect(fd, func(n ast.Node) bool {
-				if a, ok := n.(*ast.AssignStmt); ok && len(a.Lhs) == 1 && len(a.Rhs) == 1 {
-					if c, ok := a.Rhs[0].(*ast.CallExpr); ok && (x.src(c.Fun) == "bufio.NewReader" || x.src(c.Fun) == "bufio.NewReaderSize") {
-						bufVar = x.src(a.Lhs[0])
-						bufArgs = x.src(c.Fun) + "("
-						for i, arg := range c.Args {
-							if i > 0 {
-								bufArgs += ", "
+		// the websocket handler: the function HTTPProxy.ServeHTTP calls in its websocket branch
+		if fd := x.funcDecl("proxy", "HTTPProxy", "ServeHTTP"); fd != nil {
+			names := map[string]bool{}
+			ast.Inspect(fd.Body, func(n ast.Node) bool {
+				if is, ok := n.(*ast.IfStmt); ok && strings.Contains(x.src(is.Cond), `"websocket"`) {
+					ast.Inspect(is.Body, func(m ast.Node) bool {
+						if c, ok := m.(*ast.CallExpr); ok {
+							if id, ok := c.Fun.(*ast.Ident); ok && x.anyFuncDecl("proxy", id.Name) != nil {
+								names[id.Name] = true
 							}
-							bufArgs += x.src(arg)
 						}
-						bufArgs += ")"
-					}
+						return true
+					})
+					return false
 				}
 				return true
 			})
-			x.defStr("sniBufReaderVar", bufVar)
-			x.defStr("sniBufReaderCtor", bufArgs)
-			if cs := x.calls(fd, bufVar+".Peek"); len(cs) == 1 && len(cs[0].Args) == 1 {
-				if k, ok := c09Const(x, cs[0].Args[0]); ok {
-					x.defNat("sniPeek", k)
-				} else {
-					x.fail("SNIProxy.ServeTCP: Peek argument is not a constant")
-				}
-			} else {
-				x.fail("SNIProxy.ServeTCP: expected exactly one %s.Peek(n)", bufVar)
+			if len(names) != 1 {
+				x.fail("HTTPProxy.ServeHTTP: expected exactly one handler constructor in the websocket branch, found %d", len(names))
 			}
-			if cs := x.calls(fd, "readServerName"); len(cs) == 1 && len(cs[0].Args) == 1 {
-				x.defStr("sniServerNameArg", x.src(cs[0].Args[0]))
-			} else {
-				x.fail("SNIProxy.ServeTCP: readServerName call not found")
-			}
-			if cs := x.calls(fd, "io.ReadFull"); len(cs) == 1 && len(cs[0].Args) == 2 {
-				x.defStr("sniReadFullArgs", x.src(cs[0].Args[0])+", "+x.src(cs[0].Args[1]))
-			} else {
-				x.fail("SNIProxy.ServeTCP: io.ReadFull call not found")
-			}
-			// source order of the interesting calls
-			interesting := map[string]bool{bufVar + ".Peek": true, "clientHelloBufferSize": true, "io.ReadFull": true,
-				"readServerName": true, "p.Lookup": true, "net.DialTimeout": true, "WriteProxyHeader": true, "out.Write": true}
-			var order []string
-			ast.Inspect(fd.Body, func(n ast.Node) bool {
-				switch v := n.(type) {
-				case *ast.CallExpr:
-					f := x.src(v.Fun)
-					if interesting[f] {
-						if f == "out.Write" && len(v.Args) == 1 {
-							f += "(" + x.src(v.Args[0]) + ")"
-						}
-						order = append(order, f)
-					}
-				case *ast.GoStmt:
-					if x.src(v.Call.Fun) == "cp" && len(v.Call.Args) >= 2 {
-						order = append(order, "go cp("+x.src(v.Call.Args[0])+", "+x.src(v.Call.Args[1])+")")
-					}
+			for n := range names {
+				ws := x.anyFuncDecl("proxy", n)
+				env := c09env{}
+				_, params, _ := x.LocalNames(ws)
+				if len(params) >= 2 {
+					env[params[1]] = "dialfn"
 				}
-				return true
-			})
-			x.defStrList("sniCallOrder", order)
-			c09Tunnel(x, "sni", fd.Body)
-		}
-		if fd := x.funcDecl("proxy/tcp", "Proxy", "ServeTCP"); fd != nil {
-			c09Tunnel(x, "tcp", fd.Body)
-			var order []string
-			ast.Inspect(fd.Body, func(n ast.Node) bool {
-				switch v := n.(type) {
-				case *ast.CallExpr:
-					if f := x.src(v.Fun); f == "net.DialTimeout" || f == "WriteProxyHeader" {
-						order = append(order, f)
-					}
-				case *ast.GoStmt:
-					if x.src(v.Call.Fun) == "cp" && len(v.Call.Args) >= 2 {
-						order = append(order, "go cp("+x.src(v.Call.Args[0])+", "+x.src(v.Call.Args[1])+")")
-					}
-				}
-				return true
-			})
-			x.defStrList("tcpCallOrder", order)
-		}
-		if fd := x.funcDecl("proxy/tcp", "DynamicProxy", "ServeTCP"); fd != nil {
-			c09Tunnel(x, "dyn", fd.Body)
-		}
-		if fd := x.funcDecl("proxy", "", "newWSHandler"); fd != nil {
-			c09Tunnel(x, "ws", fd.Body)
-			x.defNat("wsIoCopies", uint64(len(x.calls(fd, "io.Copy"))))
-		}
-		// the cp closure of the tcp proxies posts copyBuffer's result to errc
-		for _, p := range []string{"Proxy", "SNIProxy", "DynamicProxy"} {
-			if fd := x.funcDecl("proxy/tcp", p, "ServeTCP"); fd != nil {
-				if len(x.calls(fd, "copyBuffer")) != 1 {
-					x.fail("%s.ServeTCP: expected exactly one copyBuffer call (in the cp closure)", p)
-				}
+				c09Handler(x, "ws", "proxy", ws.Body, env)
 			}
 		}
 
-		// WriteProxyHeader: the concatenation and the family test
-		if fd := x.funcDecl("proxy/tcp", "", "WriteProxyHeader"); fd != nil {
-			var parts []string
-			fam := ""
-			ast.Inspect(fd, func(n ast.Node) bool {
-				switch v := n.(type) {
-				case *ast.AssignStmt:
-					if len(v.Lhs) == 1 && x.src(v.Lhs[0]) == "header" && len(v.Rhs) == 1 {
-						parts = c09Flatten(x, v.Rhs[0])
-					}
-				case *ast.IfStmt:
-					if fam == "" {
-						fam = x.src(v.Cond) + " ? " + x.src(v.Body) + " : " + x.src(v.Else)
-					}
-				}
-				return true
-			})
-			if parts == nil {
-				x.fail("WriteProxyHeader: `header := ...` not found")
-			}
-			x.defStrList("pxyHeaderParts", parts)
-			x.defStr("pxyFamily", fam)
-			var splits []string
-			for _, c := range x.calls(fd, "net.SplitHostPort") {
-				if len(c.Args) == 1 {
-					splits = append(splits, x.src(c.Args[0]))
-				}
-			}
-			x.defStrList("pxySplitArgs", splits)
-		}
+		c09ProxyHeader(x)
+		c09ConnWrapper(x)
 		return nil
 	})
 }
